@@ -65,14 +65,27 @@ def run(scn):
     base = d.get("base", 0)
     naw = d.get("naw", 20)
     axi = LiteDRAMAXIPort(data_width=dw, address_width=32, id_width=idw)
-    port = LiteDRAMNativePort("both", naw, dw)
-    dut = LiteDRAMAXI2Native(axi, port, w_buffer_depth=d["wdepth"], r_buffer_depth=d["rdepth"], base_address=base,
-                             with_read_modify_write=d.get("rmw", False))
-    sim = Sim(dut, {"sys": 10000})
-    viol = Violations(sim)
     m = scn["mem"]
-    mem = NativeMemSlave(sim, port, cmd_ready=m.get("cmd_ready"), max_out=m.get("max_out", 8), wl1=m.get("wl1", 1),
-                         rl1=m.get("rl1", 3), extra=m.get("extra"), viol=viol)
+    core = scn.get("core")
+    if core:
+        # variant "core": the bridge sits on a port of the real core with DramRef as DRAM
+        from ..corebench import core_host, CorePortView
+
+        def attach(top, ports):
+            top.submodules.frontend = LiteDRAMAXI2Native(axi, ports[0], w_buffer_depth=d["wdepth"], r_buffer_depth=d["rdepth"],
+                                                         base_address=base, with_read_modify_write=d.get("rmw", False))
+        tb, sim, viol, dram = core_host(core, Violations, attach)
+        port = tb.ports[0]
+        assert port.data_width == dw and tb.amap.aw == naw
+        mem = CorePortView(sim, tb, dram, port)
+    else:
+        port = LiteDRAMNativePort("both", naw, dw)
+        dut = LiteDRAMAXI2Native(axi, port, w_buffer_depth=d["wdepth"], r_buffer_depth=d["rdepth"], base_address=base,
+                                 with_read_modify_write=d.get("rmw", False))
+        sim = Sim(dut, {"sys": 10000})
+        viol = Violations(sim)
+        mem = NativeMemSlave(sim, port, cmd_ready=m.get("cmd_ready"), max_out=m.get("max_out", 8), wl1=m.get("wl1", 1),
+                             rl1=m.get("rl1", 3), extra=m.get("extra"), viol=viol)
     writes, reads = scn["writes"], scn["reads"]
     full = (1 << nb) - 1
     # ---- expected write stream: list of (word address, data, strb, burst index, global beat index)
@@ -184,7 +197,7 @@ def run(scn):
     ar_d = StreamDriver(sim, axi.ar, ar_items, axf, on_xfer=on_ar)
     b_s = StreamSink(sim, axi.b, ["id", "resp"], ready=scn.get("b_ready"), on_xfer=on_b)
     r_s = StreamSink(sim, axi.r, ["id", "resp", "data", "last"], ready=scn.get("r_ready"), on_xfer=on_r)
-    for a in (aw_d, w_d, ar_d, b_s, r_s, mem):
+    for a in (aw_d, w_d, ar_d, b_s, r_s) + (() if core else (mem,)):
         sim.add_agent("sys", a)
     # native-side conservation: every native write has full byte enables in RMW mode
     nat_w = []
@@ -194,7 +207,11 @@ def run(scn):
     cap = 800 + dl + ntot * (10 + stall + max(m.get("extra") or [0]) + m.get("rl1", 3))
     if d.get("rmw"):
         cap *= 3
+    if core:
+        cap = 2 * cap + 3000 + 80 * ntot
     need_quiet = 80 + max([b for a, b in (m.get("cmd_ready") or []) + (scn.get("b_ready") or []) + (scn.get("r_ready") or [])] or [0]) + max(m.get("extra") or [0]) + m.get("rl1", 3)
+    if core:
+        need_quiet += 200
     cyc = 0
     quiet = 0
     while cyc < cap:
@@ -230,6 +247,7 @@ def run(scn):
                     break
         nr = sum(1 for x in mem.log if x[0] == "r")
         stats["rmw_cycles"] = max(0, nr - len(rbeats))
+    stats["core_variant_runs"] = 1 if core else 0
     return {"violations": viol.v, "stats": stats, "cycles": cyc, "sim_ps": sim.now, "digest": sim.digest(),
             "nontrivial": len(writes) + len(reads) >= 2,
             "states": ["dw%d rmw%d" % (dw, int(bool(d.get("rmw"))))],
@@ -266,18 +284,34 @@ def gen_burst(rng, nb, base, window, maxlen, hot):
 
 
 def gen(rng, tier, index):
+    core = None
     dw = rng.choice([32, 32, 64, 128, 8, 16])
-    nb = dw // 8
     naw = rng.choice([12, 16, 20])
+    if rng.random() < 0.12:
+        from .. import coregen
+        core, info = coregen.gen_core(rng, nports=1, nranks=1)
+        dw = info["data_bytes"] * 8
+        naw = coregen.amap_of(core, info).aw
+    scn = _gen(rng, tier, index, dw, naw, small=core is not None)
+    if core:
+        scn["core"] = core
+    return scn
+
+
+def _gen(rng, tier, index, dw, naw, small=False):
+    nb = dw // 8
     window = (1 << naw) * nb
     base = rng.choice([0, 0, 0x1000, 0x10000, 0x40000000, 0x80000000])
     if base and base + window > (1 << 32):
         base = 0x10000
+    window = min(window, (1 << 32) - base)       # 32-bit AXI address space
     d = {"dw": dw, "idw": rng.choice([1, 2, 4, 8]), "wdepth": rng.choice([2, 4, 8, 16, 16]), "rdepth": rng.choice([2, 4, 8, 16, 16]),
          "base": base, "naw": naw, "rmw": rng.random() < 0.3}
     maxlen = 63 if tier == "quick" else 255
     nw = rng.choice([0, 1, 2, 4, 8, 16])
     nr = rng.choice([0, 1, 2, 4, 8, 16])
+    if small:
+        maxlen, nw, nr = 15, min(nw, 6), min(nr, 6)
     if nw + nr == 0:
         nw = 2
     hot = [rng.randrange(0, window) for _ in range(rng.choice([1, 2, 4]))]
